@@ -86,6 +86,7 @@ theorem tablesOk : TablesOk table bonds where
   btoks := Molli.Gen.Mol2Types.tokens_wellformed.2.2
   bcyc := Molli.Gen.Mol2Types.bond_second_cycle_fixed
   bexpr := Molli.Gen.Mol2Types.expressible_bond_type_preserved
+  bpre := Molli.Gen.Mol2Types.bond_token_prefix_free
 
 /-- `split_join`: whitespace-free non-empty tokens survive joining with (any amount of) padding and
 Python's `str.split()`: a line `t w₁t₁ w₂t₂ … trail` with non-empty whitespace runs `wᵢ` splits into
